@@ -70,10 +70,16 @@ Proof.
   - intro H. inversion H; subst. rewrite !Z.eqb_refl. reflexivity.
 Qed.
 
+Lemma agg_x_eq t0 iv l j : agg_x t0 iv l j = agg t0 iv l j.
+Proof.
+  induction l as [|[t v] r IH]; [reflexivity|]. cbn [agg_x agg]. rewrite IH. reflexivity.
+Qed.
+
 Lemma exactb_sound n iv ign t l bs : exactb n iv ign t l bs = true -> exact Exec.t0 iv n ign t l bs.
 Proof.
   unfold exactb, exact. intro H. apply andb_true_iff in H as [_ H].
-  apply (list_eqb_eq bucket_eqb bucket_eqb_eq) in H. eexists. exact H.
+  apply (list_eqb_eq bucket_eqb bucket_eqb_eq) in H. eexists. etransitivity; [exact H|].
+  apply map_ext. intro j. apply agg_x_eq.
 Qed.
 
 Lemma w_spec_sound n iv ign pts reduces : w_spec n iv ign pts reduces = true ->
